@@ -120,7 +120,8 @@ def gen(rng, tier):
         group.append(("both", both, BASE_ERR, None))
         group.append(("none", subset(s, lambda i: False), BASE_ERR, None))
         for role, st, err, k in group:
-            c = core.case_from_struct(st, Weight=False, Solve=True, Assemble=True, Error=estr(err))
+            # (every fourth group is solved from its own .inkfempre text read back: what is written must carry small loads too)
+            c = core.case_from_struct(st, Weight=False, Solve=True, Assemble=True, Error=estr(err), ViaPre=(g % 4 == 1))
             c.update(group=g, role=role, factor=str(k) if k is not None else None)
             cases.append(c)
     return cases
